@@ -39,6 +39,9 @@ NAMES = list("abcdxyzij")
 
 def rexpr(rng, d=2, names=NAMES):
     if d <= 0 or rng.random() < 0.3:
+        if rng.random() < 0.15:     # numbers that are == across kinds: renaming keeps each as it is
+            import numpy as np
+            return rng.choice([1, 1.0, True, 2, 2.0, np.int64(2), 0, 0.0, False, 4, 4.0, np.float64(4.0)])
         return rng.choice([p.Variable(rng.choice(names)), rng.randint(0, 5)])
     k = rng.choice(["sum", "prod", "sub", "call", "cmp", "if", "quot"])
     g = lambda: rexpr(rng, d - 1, names)  # noqa: E731
